@@ -1,0 +1,48 @@
+//! Verification hooks, compiled only with `--cfg folo_verif` (deterministic-simulation harnesses).
+//!
+//! Nothing here changes behavior unless a harness explicitly sets the override.
+#![allow(missing_docs, reason = "verification-only hook module")]
+#![allow(clippy::exhaustive_structs, reason = "verification-only hook module")]
+
+use std::sync::atomic::{AtomicUsize, Ordering};
+
+/// When non-zero, every slab layout calculated from now on uses this many slots per slab.
+/// This is a tuning knob only: a pool must be correct for any slab capacity.
+pub static SLAB_CAPACITY_OVERRIDE: AtomicUsize = AtomicUsize::new(0);
+
+/// Sets (non-zero) or clears (zero) the slab capacity override for pools created afterwards.
+pub fn set_slab_capacity_override(capacity: usize) {
+    SLAB_CAPACITY_OVERRIDE.store(capacity, Ordering::Relaxed);
+}
+
+/// Read-only view of the bookkeeping of one slab.
+#[derive(Clone, Debug)]
+pub struct SlabProbe {
+    /// Address of the first slot.
+    pub base: usize,
+    /// Size in bytes of the slot array.
+    pub bytes: usize,
+    /// Number of occupied slots as counted by the slab.
+    pub count: usize,
+    /// Length of the free list when walked from its head (`usize::MAX` if it does not terminate
+    /// within `capacity` steps or leaves the slab).
+    pub free_list_len: usize,
+    /// Occupancy tag per slot.
+    pub occupied: Vec<bool>,
+}
+
+/// Read-only view of the bookkeeping of one opaque pool.
+#[derive(Clone, Debug)]
+pub struct PoolProbe {
+    pub length: usize,
+    pub slab_capacity: usize,
+    pub slot_stride: usize,
+    pub slot_to_object_offset: usize,
+    pub object_size: usize,
+    pub object_align: usize,
+    /// Cached index of the lowest slab with a vacancy.
+    pub next_vacancy: Option<usize>,
+    /// Vacancy bit per slab.
+    pub vacancy_bits: Vec<bool>,
+    pub slabs: Vec<SlabProbe>,
+}
